@@ -179,4 +179,421 @@ theorem exact_all (L : Limits) (P : Char → Bool) : ∀ v : RV, ExactStmt L P v
 theorem repr1_exact (L : Limits) (P : Char → Bool) (v : RV) (lvl : Nat) (h : fitsAt L P v lvl = true) :
     repr1 L P v lvl = refRepr P v := (exact_all L P v).1 lvl h
 
+
+/-! ### larger limits keep a value within the limits -/
+
+/-- every limit of `L'` is at least that of `L` -/
+def Limits.le (L L' : Limits) : Prop :=
+  L.maxlevel ≤ L'.maxlevel ∧ L.maxtuple ≤ L'.maxtuple ∧ L.maxlist ≤ L'.maxlist ∧ L.maxarray ≤ L'.maxarray ∧
+  L.maxdict ≤ L'.maxdict ∧ L.maxset ≤ L'.maxset ∧ L.maxfrozenset ≤ L'.maxfrozenset ∧ L.maxdeque ≤ L'.maxdeque ∧
+  L.maxstring ≤ L'.maxstring ∧ L.maxlong ≤ L'.maxlong ∧ L.maxother ≤ L'.maxother
+
+theorem SeqKind.limit_le (L L' : Limits) (h : L.le L') (k : SeqKind) : k.limit L ≤ k.limit L' := by
+  obtain ⟨_, h2, h3, h4, _, h6, h7, h8, _, _, _⟩ := h
+  cases k <;> simp [SeqKind.limit] <;> assumption
+
+theorem fits_mono (L L' : Limits) (P : Char → Bool) (hL : L.le L') : ∀ v : RV,
+    (∀ lvl lvl', lvl ≤ lvl' → fitsAt L P v lvl = true → fitsAt L' P v lvl' = true) ∧
+    (∀ l l', l ≤ l' → fitsItems L P v l = true → fitsItems L' P v l' = true) := by
+  intro v
+  induction v with
+  | int n =>
+    refine ⟨?_, by intros; simp [fitsItems]⟩
+    intro lvl lvl' _ h
+    simp only [fitsAt, decide_eq_true_eq] at h ⊢
+    exact Nat.le_trans h hL.2.2.2.2.2.2.2.2.2.1
+  | str s =>
+    refine ⟨?_, by intros; simp [fitsItems]⟩
+    intro lvl lvl' _ h
+    simp only [fitsAt, decide_eq_true_eq] at h ⊢
+    exact Nat.le_trans h hL.2.2.2.2.2.2.2.2.1
+  | other r bn =>
+    refine ⟨?_, by intros; simp [fitsItems]⟩
+    intro lvl lvl' _ h
+    simp only [fitsAt, decide_eq_true_eq] at h ⊢
+    exact Nat.le_trans h hL.2.2.2.2.2.2.2.2.2.2
+  | nil => exact ⟨by intros; simp [fitsAt], by intros; simp [fitsItems]⟩
+  | cons x rest ihx ihr =>
+    refine ⟨by intros; simp [fitsAt], ?_⟩
+    intro l l' hl h
+    simp only [fitsItems, Bool.and_eq_true] at h ⊢
+    exact ⟨ihx.1 l l' hl h.1, ihr.2 l l' hl h.2⟩
+  | seq k items ih =>
+    refine ⟨?_, by intros; simp [fitsItems]⟩
+    intro lvl lvl' hl h
+    simp only [fitsAt, Bool.and_eq_true, Bool.or_eq_true, beq_iff_eq, bne_iff_ne, ne_eq, decide_eq_true_eq] at h ⊢
+    refine ⟨⟨?_, Nat.le_trans h.1.2 (SeqKind.limit_le L L' hL k)⟩, ih.2 _ _ (by omega) h.2⟩
+    rcases h.1.1 with h' | h'
+    · exact Or.inl h'
+    · exact Or.inr (by omega)
+  | dict entries ih =>
+    refine ⟨?_, by intros; simp [fitsItems]⟩
+    intro lvl lvl' hl h
+    simp only [fitsAt, Bool.and_eq_true, Bool.or_eq_true, beq_iff_eq, bne_iff_ne, ne_eq, decide_eq_true_eq] at h ⊢
+    refine ⟨⟨?_, by have := hL.2.2.2.2.1; omega⟩, ih.2 _ _ (by omega) h.2⟩
+    rcases h.1.1 with h' | h'
+    · exact Or.inl h'
+    · exact Or.inr (by omega)
+
+/-- all limits equal to `b` -/
+def Limits.uniform (b : Nat) : Limits :=
+  { maxlevel := b, maxtuple := b, maxlist := b, maxarray := b, maxdict := b, maxset := b, maxfrozenset := b,
+    maxdeque := b, maxstring := b, maxlong := b, maxother := b }
+
+theorem uniform_le_of_allGe (L : Limits) (b : Nat) (h : L.allGe b = true) : (Limits.uniform b).le L := by
+  simp only [Limits.allGe, Limits.toList, List.all_cons, List.all_nil, Bool.and_true, Bool.and_eq_true,
+    decide_eq_true_eq] at h
+  obtain ⟨h1, h2, h3, h4, h5, h6, h7, h8, h9, h10, h11⟩ := h
+  exact ⟨h1, h2, h3, h4, h5, h6, h7, h8, h9, h10, h11⟩
+
+
+/-! ### the text of a value is a single line -/
+
+/-- no line break in the string -/
+def OneLine (s : Str) : Prop := ∀ c, c ∈ s → c ≠ '\n'
+
+theorem OneLine_append {a b : Str} (ha : OneLine a) (hb : OneLine b) : OneLine (a ++ b) := by
+  intro c hc
+  rcases List.mem_append.mp hc with h | h
+  · exact ha c h
+  · exact hb c h
+
+theorem OneLine_take {s : Str} (h : OneLine s) (n : Nat) : OneLine (s.take n) :=
+  fun c hc => h c (List.mem_of_mem_take hc)
+
+theorem OneLine_drop {s : Str} (h : OneLine s) (n : Nat) : OneLine (s.drop n) :=
+  fun c hc => h c (List.mem_of_mem_drop hc)
+
+theorem OneLine_lit (s : String) (h : s.toList.all (fun c => c != '\n') = true) : OneLine s.toList := by
+  intro c hc hn
+  subst hn
+  have := List.all_eq_true.mp h _ hc
+  simp at this
+
+theorem hexDigit_ne_nl (n : Nat) (h : n < 16) : hexDigit n ≠ '\n' := by
+  unfold hexDigit
+  have : ∀ k, k < 16 → (if k < 10 then Char.ofNat (48 + k) else Char.ofNat (87 + k)) ≠ '\n' := by decide
+  exact this n h
+
+theorem hexN_OneLine : ∀ (k n : Nat), OneLine (hexN k n)
+  | 0, _ => by intro c hc; simp [hexN] at hc
+  | k + 1, n => by
+    unfold hexN
+    apply OneLine_append (hexN_OneLine k (n / 16))
+    intro c hc
+    simp only [List.mem_singleton] at hc
+    subst hc
+    exact hexDigit_ne_nl _ (Nat.mod_lt _ (by omega))
+
+theorem escChar_OneLine (P : Char → Bool) (q : Char) (hq : q ≠ '\n') (c : Char) : OneLine (escChar P q c) := by
+  have hcons : ∀ (a b : Char) (r : Str), a ≠ '\n' → b ≠ '\n' → OneLine r → OneLine (a :: b :: r) := by
+    intro a b r ha hb hr x hx
+    simp only [List.mem_cons] at hx
+    rcases hx with h | h | h
+    · subst h; exact ha
+    · subst h; exact hb
+    · exact hr x h
+  have hnil : OneLine ([] : Str) := by intro x hx; simp at hx
+  unfold escChar
+  split
+  · rename_i h
+    have hc : c ≠ '\n' := by
+      intro h0; subst h0
+      simp only [Bool.or_eq_true, beq_iff_eq] at h
+      rcases h with h | h
+      · exact hq h.symm
+      · exact absurd h (by decide)
+    intro x hx
+    simp only [List.mem_cons, List.mem_nil_iff, or_false] at hx
+    rcases hx with h' | h'
+    · subst h'; decide
+    · subst h'; exact hc
+  · split
+    · exact hcons _ _ _ (by decide) (by decide) hnil
+    · split
+      · exact hcons _ _ _ (by decide) (by decide) hnil
+      · split
+        · exact hcons _ _ _ (by decide) (by decide) hnil
+        · rename_i h1 h2 h3 h4
+          have hc : c ≠ '\n' := by intro h0; subst h0; simp at h3
+          have hsingle : OneLine [c] := by intro x hx; simp at hx; subst hx; exact hc
+          split
+          · exact hcons _ _ _ (by decide) (by decide) (hexN_OneLine 2 _)
+          · split
+            · exact hsingle
+            · split
+              · exact hsingle
+              · split
+                · exact hcons _ _ _ (by decide) (by decide) (hexN_OneLine 2 _)
+                · split
+                  · exact hcons _ _ _ (by decide) (by decide) (hexN_OneLine 4 _)
+                  · exact hcons _ _ _ (by decide) (by decide) (hexN_OneLine 8 _)
+
+theorem escBody_OneLine (P : Char → Bool) (q : Char) (hq : q ≠ '\n') : ∀ s : Str, OneLine (escBody P q s)
+  | [] => by intro c hc; simp [escBody] at hc
+  | c :: r => by
+    unfold escBody
+    exact OneLine_append (escChar_OneLine P q hq c) (escBody_OneLine P q hq r)
+
+theorem quoteOf_ne_nl (s : Str) : quoteOf s ≠ '\n' := by
+  unfold quoteOf; split <;> decide
+
+/-- **`str.__repr__` has no line break** (line breaks are escaped), whatever is printable -/
+theorem pyStrRepr_OneLine (P : Char → Bool) (s : Str) : OneLine (pyStrRepr P s) := by
+  unfold pyStrRepr
+  intro c hc
+  simp only [List.mem_cons, List.mem_append, List.mem_nil_iff, or_false] at hc
+  rcases hc with h | h | h
+  · subst h; exact quoteOf_ne_nl s
+  · exact escBody_OneLine P _ (quoteOf_ne_nl s) s c h
+  · subst h; exact quoteOf_ne_nl s
+
+
+theorem OneLine_nil : OneLine ([] : Str) := by intro c hc; simp at hc
+
+theorem natRepr_OneLine (n : Nat) : OneLine (Nat.repr n).toList := by
+  intro c hc hn
+  subst hn
+  have h1 : (Nat.repr n).toList = Nat.toDigits 10 n := by unfold Nat.repr; simp
+  rw [h1] at hc
+  have := Nat.isDigit_of_mem_toDigits (by decide) (by decide) hc
+  simp [Char.isDigit] at this
+
+theorem intRepr_OneLine (v : Int) : OneLine (toString v).toList := by
+  cases v with
+  | ofNat n => exact natRepr_OneLine n
+  | negSucc n =>
+    show OneLine ("-" ++ Nat.repr (n + 1)).toList
+    rw [String.toList_append]
+    exact OneLine_append (OneLine_lit "-" (by decide)) (natRepr_OneLine _)
+
+theorem fill_OneLine : OneLine fill := OneLine_lit "..." (by decide)
+
+theorem pySliceFrom_OneLine {s : Str} (h : OneLine s) (k : Int) : OneLine (pySliceFrom s k) := by
+  unfold pySliceFrom
+  split <;> exact OneLine_drop h _
+
+theorem elide_OneLine (lim : Nat) {s : Str} (h : OneLine s) : OneLine (elide lim s) := by
+  unfold elide
+  split
+  · exact OneLine_append (OneLine_append (OneLine_take h _) fill_OneLine) (pySliceFrom_OneLine h _)
+  · exact h
+
+theorem reprStr_OneLine (P : Char → Bool) (lim : Nat) (x : Str) : OneLine (reprStr P lim x) := by
+  unfold reprStr
+  simp only []
+  split
+  · exact OneLine_append (OneLine_append (OneLine_take (pyStrRepr_OneLine P _) _) fill_OneLine)
+      (pySliceFrom_OneLine (pyStrRepr_OneLine P _) _)
+  · exact pyStrRepr_OneLine P _
+
+theorem joinSep_OneLine : ∀ (ps : List Str), (∀ p, p ∈ ps → OneLine p) → OneLine (joinSep ps)
+  | [], _ => OneLine_nil
+  | [x], h => by simpa [joinSep] using h x (by simp)
+  | x :: y :: r, h => by
+    show OneLine (x ++ ',' :: ' ' :: joinSep (y :: r))
+    apply OneLine_append (h x (by simp))
+    intro c hc
+    simp only [List.mem_cons] at hc
+    rcases hc with h' | h' | h'
+    · subst h'; decide
+    · subst h'; decide
+    · exact joinSep_OneLine (y :: r) (fun p hp => h p (List.mem_cons_of_mem _ hp)) c h'
+
+theorem mem_insertBy {α} (le : α → α → Bool) (x : α) : ∀ (l : List α) (y : α), y ∈ insertBy le x l → y = x ∨ y ∈ l
+  | [], y, h => by simp [insertBy] at h; exact Or.inl h
+  | z :: r, y, h => by
+    simp only [insertBy] at h
+    split at h
+    · rcases List.mem_cons.mp h with h | h
+      · exact Or.inl h
+      · exact Or.inr h
+    · rcases List.mem_cons.mp h with h | h
+      · exact Or.inr (by simp [h])
+      · rcases mem_insertBy le x r y h with h' | h'
+        · exact Or.inl h'
+        · exact Or.inr (List.mem_cons_of_mem _ h')
+
+theorem mem_sortBy {α} (le : α → α → Bool) : ∀ (l : List α) (y : α), y ∈ sortBy le l → y ∈ l
+  | [], y, h => by simp [sortBy] at h
+  | x :: r, y, h => by
+    simp only [sortBy] at h
+    rcases mem_insertBy le x _ y h with h' | h'
+    · simp [h']
+    · exact List.mem_cons_of_mem _ (mem_sortBy le r y h')
+
+theorem mem_possiblySorted (ps : List (RV × Str)) (p : RV × Str) (h : p ∈ possiblySorted ps) : p ∈ ps := by
+  unfold possiblySorted at h
+  split at h
+  · exact mem_sortBy _ _ _ h
+  · exact h
+
+/-- the texts of the leaves the model takes as given have no line break -/
+def leavesOneLine : RV → Prop
+  | .other r bn => OneLine r ∧ ∀ n, bn = some n → OneLine n
+  | .seq k items => (∀ tc, k = .array tc → tc ≠ '\n') ∧ leavesOneLine items
+  | .dict e => leavesOneLine e
+  | .cons x r => leavesOneLine x ∧ leavesOneLine r
+  | _ => True
+
+theorem brackets_OneLine (k : SeqKind) (hk : ∀ tc, k = .array tc → tc ≠ '\n') :
+    OneLine k.brackets.left ∧ OneLine k.brackets.right ∧ OneLine k.brackets.trail ∧
+      (∀ e, k.brackets.empty = some e → OneLine e) := by
+  cases k with
+  | list =>
+    exact ⟨OneLine_lit "[" (by decide), OneLine_lit "]" (by decide), OneLine_nil, fun e h => by cases h⟩
+  | tuple =>
+    exact ⟨OneLine_lit "(" (by decide), OneLine_lit ")" (by decide), OneLine_lit "," (by decide), fun e h => by cases h⟩
+  | set =>
+    refine ⟨OneLine_lit "{" (by decide), OneLine_lit "}" (by decide), OneLine_nil, ?_⟩
+    intro e h; cases h; exact OneLine_lit "set()" (by decide)
+  | frozenset =>
+    refine ⟨OneLine_lit "frozenset({" (by decide), OneLine_lit "})" (by decide), OneLine_nil, ?_⟩
+    intro e h; cases h; exact OneLine_lit "frozenset()" (by decide)
+  | deque =>
+    exact ⟨OneLine_lit "deque([" (by decide), OneLine_lit "])" (by decide), OneLine_nil, fun e h => by cases h⟩
+  | array tc =>
+    have htc : OneLine [tc] := by
+      intro c hc
+      simp only [List.mem_singleton] at hc
+      rw [hc]; exact hk tc rfl
+    refine ⟨?_, OneLine_lit "])" (by decide), OneLine_nil, ?_⟩
+    · show OneLine ("array('".toList ++ tc :: "', [".toList)
+      exact OneLine_append (OneLine_lit "array('" (by decide)) (OneLine_append htc (OneLine_lit "', [" (by decide)))
+    · intro e h
+      cases h
+      exact OneLine_append (OneLine_lit "array('" (by decide)) (OneLine_append htc (OneLine_lit "')" (by decide)))
+
+theorem wrapPieces_OneLine (b : Brackets) (lim : Nat) (ps : List Str) (hl : OneLine b.left) (hr : OneLine b.right)
+    (ht : OneLine b.trail) (hp : ∀ p, p ∈ ps → OneLine p) : OneLine (wrapPieces b lim ps) := by
+  unfold wrapPieces
+  apply OneLine_append _ hr
+  apply OneLine_append
+  · apply OneLine_append hl
+    apply joinSep_OneLine
+    intro p hp'
+    rcases List.mem_append.mp hp' with h | h
+    · exact hp p (List.mem_of_mem_take h)
+    · split at h
+      · simp only [List.mem_singleton] at h; subst h; exact fill_OneLine
+      · simp at h
+  · split
+    · exact ht
+    · exact OneLine_nil
+
+/-- **the model's text of a value has no line break** (for every limits record and every
+    printability predicate): the three statements proved together over the value type -/
+theorem repr1_OneLine_all (L : Limits) (P : Char → Bool) : ∀ v : RV, leavesOneLine v →
+    (∀ lvl, OneLine (repr1 L P v lvl)) ∧
+    (∀ l p, p ∈ reprItems L P v l → OneLine p.2) ∧
+    (∀ l p, p ∈ reprEntries L P v l → OneLine p.2) ∧
+    (∀ k l, (∀ lvl, OneLine (repr1 L P k lvl)) → ∀ p, p ∈ reprEntries L P (.cons k v) l → OneLine p.2) := by
+  intro v
+  induction v with
+  | int n =>
+    intro _
+    refine ⟨fun lvl => ?_, by intro l p hp; simp [reprItems] at hp, by intro l p hp; simp [reprEntries] at hp,
+      by intro k l _ p hp; simp [reprEntries] at hp⟩
+    simp only [repr1]
+    exact elide_OneLine _ (intRepr_OneLine n)
+  | str s =>
+    intro _
+    refine ⟨fun lvl => ?_, by intro l p hp; simp [reprItems] at hp, by intro l p hp; simp [reprEntries] at hp,
+      by intro k l _ p hp; simp [reprEntries] at hp⟩
+    simp only [repr1]
+    exact reprStr_OneLine P _ s
+  | other r bn =>
+    intro h
+    refine ⟨fun lvl => ?_, by intro l p hp; simp [reprItems] at hp, by intro l p hp; simp [reprEntries] at hp,
+      by intro k l _ p hp; simp [reprEntries] at hp⟩
+    simp only [repr1]
+    split
+    · cases bn with
+      | none => exact elide_OneLine _ h.1
+      | some n => exact h.2 n rfl
+    · exact elide_OneLine _ h.1
+  | nil =>
+    intro _
+    exact ⟨fun lvl => by simp only [repr1]; exact OneLine_nil, by intro l p hp; simp [reprItems] at hp,
+      by intro l p hp; simp [reprEntries] at hp, by intro k l _ p hp; simp [reprEntries] at hp⟩
+  | cons x rest ihx ihr =>
+    intro h
+    obtain ⟨hx, hr⟩ := h
+    refine ⟨fun lvl => by simp only [repr1]; exact OneLine_nil, ?_, ?_, ?_⟩
+    · intro l p hp
+      simp only [reprItems, List.mem_cons] at hp
+      rcases hp with hp | hp
+      · subst hp; exact (ihx hx).1 l
+      · exact (ihr hr).2.1 l p hp
+    · intro l p hp
+      exact (ihr hr).2.2.2 x l (ihx hx).1 p hp
+    · intro k l hk p hp
+      simp only [reprEntries, List.mem_cons] at hp
+      rcases hp with hp | hp
+      · subst hp
+        apply OneLine_append (hk l)
+        intro c hc
+        simp only [List.mem_cons] at hc
+        rcases hc with h' | h' | h'
+        · subst h'; decide
+        · subst h'; decide
+        · exact (ihx hx).1 l c h'
+      · exact (ihr hr).2.2.1 l p hp
+  | seq k items ih =>
+    intro h
+    obtain ⟨hk, hi⟩ := h
+    obtain ⟨hl, hr, ht, he⟩ := brackets_OneLine k hk
+    refine ⟨fun lvl => ?_, by intro l p hp; simp [reprItems] at hp, by intro l p hp; simp [reprEntries] at hp,
+      by intro k l _ p hp; simp [reprEntries] at hp⟩
+    simp only [repr1]
+    split
+    · cases hbe : k.brackets.empty with
+      | none => exact OneLine_append hl hr
+      | some e => exact he e hbe
+    · cases lvl with
+      | zero => exact OneLine_append (OneLine_append hl fill_OneLine) hr
+      | succ l =>
+        simp only []
+        apply wrapPieces_OneLine _ _ _ hl hr ht
+        intro p hp
+        obtain ⟨q, hq, rfl⟩ := List.mem_map.mp hp
+        split at hq
+        · exact (ih hi).2.1 l q (mem_possiblySorted _ q hq)
+        · exact (ih hi).2.1 l q hq
+  | dict entries ih =>
+    intro h
+    refine ⟨fun lvl => ?_, by intro l p hp; simp [reprItems] at hp, by intro l p hp; simp [reprEntries] at hp,
+      by intro k l _ p hp; simp [reprEntries] at hp⟩
+    simp only [repr1]
+    split
+    · exact OneLine_lit "{}" (by decide)
+    · cases lvl with
+      | zero =>
+        exact OneLine_append (OneLine_append (OneLine_lit "{" (by decide)) fill_OneLine) (OneLine_lit "}" (by decide))
+      | succ l =>
+        simp only []
+        apply wrapPieces_OneLine _ _ _ (OneLine_lit "{" (by decide)) (OneLine_lit "}" (by decide)) OneLine_nil
+        intro p hp
+        obtain ⟨q, hq, rfl⟩ := List.mem_map.mp hp
+        exact (ih h).2.2.1 l q (mem_possiblySorted _ q hq)
+
+/-- `.replace("\\'", "'")` only removes characters -/
+theorem mem_replQ : ∀ (s : Str) (c : Char), c ∈ replQ s → c ∈ s := by
+  intro s
+  fun_induction replQ s with
+  | case1 r ih =>
+    intro c hc
+    rcases List.mem_cons.mp hc with h | h
+    · subst h; simp
+    · have := ih c h; simp [this]
+  | case2 c r hne ih =>
+    intro x hx
+    rcases List.mem_cons.mp hx with h | h
+    · subst h; simp
+    · have := ih x h; simp [this]
+  | case3 => intro c hc; simp at hc
+
+theorem replQ_OneLine (s : Str) (h : OneLine s) : OneLine (replQ s) :=
+  fun c hc => h c (mem_replQ s c hc)
+
 end Glom.C05
